@@ -654,9 +654,19 @@ func siteName(n *emit.WNode) string {
 }
 
 // DumpE1 prints the model (development aid: `sbpfcheck -prop E1DUMP`).
+func dumpCondSources(m *e1Model) {
+	if m.fragG == nil {
+		return
+	}
+	for pos, o := range m.fragG.CondSources {
+		fmt.Printf("condsource %s: %s\n", m.p.Pos(pos), o.String())
+	}
+}
+
 func DumpE1(e *Env) {
 	m := e.E1()
 	fmt.Println("problems:", m.problems)
+	dumpCondSources(m)
 	fmt.Printf("facts: %+v\n", m.facts)
 	fmt.Println("ops:", m.allOps, "slice:", m.opsSlice)
 	if m.fragG == nil {
